@@ -14,6 +14,12 @@ CLAIMS = {
  "C10": dict(text="Coq theorems about the packing loop of Mutations::send (partition: no chunk is ever divided, order kept; fits: accounted size <= max_size when every chunk fits; single message when everything fits; emitted length = accounted size) for all chunk lists and sizes; model tied to the code through the verif hook mutations_split on generated inputs. Known finding D20 (tracking reserves 10 bytes for the count) is reported, not suppressed elsewhere.",
              note="The size guarantees are proved for the accounted header; with track_mutate_messages the real header is up to 9 bytes smaller (D20, open). Layer 1 part (subset delivery of a tick's messages, relation graphs) is covered by the sim correspondence when that check is registered.",
              tech="Coq proof (loop invariant over the chunk list) + correspondence through a cfg-gated hook", ref="DESIGN.md 6/C10"),
+ "C14": dict(text="Coq theorems: the registration byte stream is injective (sequences differing in order, kind, type, priority or independence feed different inputs), every FNV-1a step is a bijection on 64-bit states and injective in the byte, hence equal-length streams differing in one byte never collide; handshake decision authorizes iff hashes are equal. The model recomputes every real hash bit for bit (correspondence through the ProtocolHasher hook); determinism and all single-step edits are checked on the implementation.",
+             note="Global collision-freeness of a 64-bit hash is not provable and is carried as an explicit premise (C14_hash_differs_under_no_collision_assumption). Type names are inputs. add_custom is outside the model.",
+             tech="Coq proof (stream parsing injectivity, modular inverse of the FNV prime) + correspondence", ref="DESIGN.md 6/C14"),
+ "C17": dict(text="Coq theorems: framing round trip for all message lists (channel < 256, length < 65536), also over several rounds of whole frames; conditioner with (timestamp, sequence) keys returns exactly the inserted messages in insertion order for every batch pattern and is empty after every frame. Tied to the code by running tcp::send_message/read_message over a real loopback socket pair and the LinkConditioner through hooks.",
+             note="Partial: OS TCP behaviour and std BinaryHeap's contract are trusted (exercised, not proved); short reads on a non-blocking socket are modelled as a distinct outcome excluded by the property's premise.",
+             tech="Coq proof (list lemmas, priority-queue spec) + correspondence over real sockets", ref="DESIGN.md 6/C17"),
 }
 ORDER = [p["id"] for p in props]
 checks = []
